@@ -35,6 +35,8 @@ def render(run) -> str:
     o.append(f"SCRUB {run['scrub']}")
     if run.get('connect'):
         o.append('CONNECT 1')
+    if run.get('templog'):
+        o.append('TEMPLOG 1')
     if run.get('slowlog'):
         o.append(f"SLOWLOG {run['slowlog']}")
     for t in run['tasks']:
@@ -198,6 +200,7 @@ def gen_routing_run(rng: Rng, mb, rid, sweep=False):
                 s[3] = 1
     run['tasks'] = tasks
     run['connect'] = 1 if rng.chance(35) else 0
+    run['templog'] = 1 if (mci and rng.chance(50)) else 0
     total_ops = sum(len(t['ops']) for t in tasks)
     est = 40 * total_ops + 50
     random_sched(rng, run, est)
@@ -330,6 +333,7 @@ def gen_c04_run(rng: Rng, mb, rid, faulty):
         scripts.append([0, e['idx'], reply_value(rng, e), 1, []])
     run['scripts'] = scripts
     run['connect'] = 1 if rng.chance(30) else 0
+    run['templog'] = 1 if rng.chance(50) else 0
     run['faulty'] = faulty
     est = 40 * len(ops) + 50
     random_sched(rng, run, est)
@@ -397,6 +401,9 @@ def gen_c11_run(rng: Rng, mb, rid):
         run['slowlog'] = rng.between(1, 3)
         faults.append('slow_log_sink')
     run['connect'] = 1 if rng.chance(30) else 0
+    if rng.chance(50):
+        run['templog'] = 1
+        faults.append('log_object_destroyed_after_construction')
     run['fault_plan'] = faults
     total = sum(12 * op[2] if op[0] == 'Y' else 1 for t in tasks for op in t['ops'])
     random_sched(rng, run, 30 * total + 100)
